@@ -38,7 +38,8 @@ class FHolder(Path):
 MISC = {
     # the root package re-exports a class whose own signature needs an import
     "__init__.py": "from .inner.impl import RootrxWidget\n",
-    "inner/__init__.py": "",
+    # a declaration written into a package file uses a class of a module of that package
+    "inner/__init__.py": "from clomisc.model_utils import PrefixsibHelper\n\n\ndef pkgfile_use(p: PrefixsibHelper) -> PrefixsibHelper:\n    ...\n",
     "inner/impl.py": "from clomisc.inner.other import RootrxPart\n\n\nclass RootrxWidget:\n    def m(self, p: RootrxPart) -> RootrxPart:\n        ...\n",
     "inner/other.py": "class RootrxPart:\n    pass\n",
     # a module whose name is a prefix of the module it uses
